@@ -662,3 +662,344 @@ Proof.
 Qed.
 
 End DataLemmas.
+
+(* ------------------------------------------------------------------ stacking map *)
+
+Lemma stack_index_spec : forall neq e j, stack_index neq e j = e + neq * j.
+Proof. intros. unfold stack_index, jac_lhs_row. ring. Qed.
+
+(* equation x column index  <->  position in the stacked residual: a bijection *)
+Theorem stack_index_bijection : forall neq ncols, 0 < neq ->
+  (forall e j, 0 <= e < neq -> 0 <= j < ncols ->
+     0 <= stack_index neq e j < neq * ncols
+     /\ stack_index neq e j mod neq = e /\ stack_index neq e j / neq = j)
+  /\ (forall i, 0 <= i < neq * ncols ->
+        0 <= i mod neq < neq /\ 0 <= i / neq < ncols /\ stack_index neq (i mod neq) (i / neq) = i).
+Proof.
+  intros neq ncols Hn. split.
+  - intros e j He Hj. rewrite stack_index_spec. repeat split.
+    + nia.
+    + nia.
+    + rewrite Z.mul_comm, Z_mod_plus_full. apply Z.mod_small. lia.
+    + rewrite Z.mul_comm, Z_div_plus_full by lia. rewrite Z.div_small by lia. lia.
+  - intros i Hi. rewrite stack_index_spec.
+    assert (H1 := Z.mod_pos_bound i neq Hn).
+    assert (H2 := Z.div_mod i neq ltac:(lia)).
+    repeat split; try lia.
+    + apply Z.div_pos; lia.
+    + apply Z.div_lt_upper_bound; lia.
+Qed.
+
+Lemma stack_length : forall V (F : nat -> nat -> V) neq ncols, length (stack F neq ncols) = (neq * ncols)%nat.
+Proof.
+  intros. unfold stack. destruct stack_equation_fastest; rewrite map_length, seq_length; reflexivity.
+Qed.
+
+(* the stacked residual carries equation e at column index j at position e + neq*j
+   (the order regenerated from _evaluators.py: flatten(order="F") of the equations x columns array) *)
+Theorem stack_nth : forall V (F : nat -> nat -> V) neq ncols e j d,
+  (e < neq)%nat -> (j < ncols)%nat ->
+  nth (e + neq * j) (stack F neq ncols) d = F e j.
+Proof.
+  intros V F neq ncols e j d He Hj. unfold stack.
+  change stack_equation_fastest with true. cbv iota.
+  assert (Hlt : (e + neq * j < neq * ncols)%nat) by nia.
+  set (g := fun i : nat => F (i mod neq)%nat (i / neq)%nat).
+  rewrite (nth_indep _ d (g 0%nat)) by (rewrite map_length, seq_length; exact Hlt).
+  rewrite (map_nth g (seq 0 (neq * ncols)) 0%nat).
+  rewrite seq_nth by exact Hlt. unfold g. simpl.
+  f_equal.
+  - rewrite Nat.mul_comm, Nat.mod_add by lia. apply Nat.mod_small. lia.
+  - rewrite Nat.mul_comm, Nat.div_add by lia. rewrite Nat.div_small by lia. lia.
+Qed.
+
+Lemma stack_In : forall V (F : nat -> nat -> V) neq ncols x,
+  In x (stack F neq ncols) <-> exists e j, (e < neq)%nat /\ (j < ncols)%nat /\ x = F e j.
+Proof.
+  intros V F neq ncols x. unfold stack. change stack_equation_fastest with true. cbv iota.
+  rewrite in_map_iff. split.
+  - intros [i [E Hi]]. apply in_seq in Hi.
+    destruct neq as [| n']; [simpl in Hi; lia |].
+    exists (i mod S n')%nat, (i / S n')%nat. repeat split; auto.
+    + apply Nat.mod_upper_bound. lia.
+    + apply Nat.div_lt_upper_bound; lia.
+  - intros [e [j [He [Hj E]]]]. exists (e + neq * j)%nat. split.
+    + subst x. f_equal.
+      * rewrite Nat.mul_comm, Nat.mod_add by lia. apply Nat.mod_small. lia.
+      * rewrite Nat.mul_comm, Nat.div_add by lia. rewrite Nat.div_small by lia. lia.
+    + apply in_seq. nia.
+Qed.
+
+(* ================================================================== semantics over the reals *)
+
+From Coq Require Import Reals Lra.
+Open Scope R_scope.
+
+(* max-norm (norm_order = inf) *)
+Definition max_norm (l : list R) : R := fold_right (fun x m => Rmax (Rabs x) m) 0 l.
+
+Lemma max_norm_lt : forall l tol, 0 < tol -> (max_norm l < tol <-> Forall (fun x => Rabs x < tol) l).
+Proof.
+  induction l; intros tol Ht; simpl.
+  - split; [constructor | auto].
+  - split.
+    + intros H. assert (H1 := Rmax_l (Rabs a) (max_norm l)). assert (H2 := Rmax_r (Rabs a) (max_norm l)).
+      constructor; [lra |]. apply IHl; auto. lra.
+    + intros H. inversion H; subst. apply Rmax_lub_lt; auto. apply IHl; auto.
+Qed.
+
+(* the solver's success test on the stacked vector holds iff every equation in every column passes it *)
+Theorem stacked_norm_iff_each : forall (F : nat -> nat -> R) neq ncols tol, 0 < tol ->
+  (max_norm (stack F neq ncols) < tol <->
+   forall e j, (e < neq)%nat -> (j < ncols)%nat -> Rabs (F e j) < tol).
+Proof.
+  intros F neq ncols tol Ht. rewrite max_norm_lt by auto. rewrite Forall_forall. split.
+  - intros H e j He Hj. apply H. apply stack_In. exists e, j. auto.
+  - intros H x Hx. apply stack_In in Hx. destruct Hx as [e [j [He [Hj ->]]]]. auto.
+Qed.
+
+(* ---------- data arrays as total maps, equations, terminal operator ---------- *)
+
+Definition darr := Z -> Z -> R.
+
+(* first position of a cell among the unknowns *)
+Fixpoint index_of (s : spot) (l : list spot) : option nat :=
+  match l with
+  | [] => None
+  | x :: r => if spot_eqb s x then Some 0%nat else option_map S (index_of s r)
+  end.
+
+(* evaluator.update: the guess x is written on the unknown cells, everything else is the frame's data *)
+Definition upd (D : darr) (spots : list spot) (x : nat -> R) : darr :=
+  fun q c => match index_of (q, c) spots with Some k => x k | None => D q c end.
+
+Lemma index_of_In : forall s l, index_of s l = None <-> ~ In s l.
+Proof.
+  induction l; simpl. tauto.
+  destruct (spot_eqb s a) eqn:E.
+  - apply spot_eqb_eq in E. subst. split; [discriminate | intros H; exfalso; apply H; auto].
+  - assert (Ne : a <> s). { intros ->. rewrite spot_eqb_refl in E. discriminate. }
+    destruct (index_of s l) eqn:I; simpl.
+    + split; [discriminate |]. intros H. exfalso.
+      assert (H0 : ~ In s l) by tauto. apply IHl in H0. discriminate.
+    + split; auto. intros _ [H | H]; [contradiction | apply IHl in H; auto].
+Qed.
+
+Lemma index_of_nth : forall s l k, index_of s l = Some k -> (k < length l)%nat /\ nth k l (0%Z, 0%Z) = s.
+Proof.
+  induction l; simpl; intros k H. discriminate.
+  destruct (spot_eqb s a) eqn:E.
+  - inversion H; subst. apply spot_eqb_eq in E. subst. split; [lia | reflexivity].
+  - destruct (index_of s l) eqn:I; simpl in H; [| discriminate]. inversion H; subst.
+    destruct (IHl n eq_refl). split; [lia | auto].
+Qed.
+
+Lemma upd_outside : forall D spots x q c, ~ In (q, c) spots -> upd D spots x q c = D q c.
+Proof. intros. unfold upd. apply index_of_In in H. rewrite H. reflexivity. Qed.
+
+(* an equation evaluated at a column of a data array; the terminal operator in force rewrites the array
+   before the equations read it (identity for terminal="data") *)
+Definition equation := darr -> Z -> R.
+
+Definition residual (eqs : list equation) (term : darr -> darr) (cols : list Z)
+           (D : darr) (spots : list spot) (x : nat -> R) : nat -> nat -> R :=
+  fun e j => nth e eqs (fun _ _ => 0) (term (upd D spots x)) (nth j cols 0%Z).
+
+Definition stacked_residual eqs term cols D spots x : list R :=
+  stack (residual eqs term cols D spots x) (length eqs) (length cols).
+
+(* success of the max-norm test = every transition equation in every simulated column is within tolerance,
+   evaluated on the frame's data with the unknown cells replaced by the solution and with the cells beyond the
+   last simulated column as produced by the terminal operator in force *)
+Theorem stacked_zero_iff_all_zero : forall eqs term cols D spots x tol, 0 < tol ->
+  (max_norm (stacked_residual eqs term cols D spots x) < tol <->
+   forall e j, (e < length eqs)%nat -> (j < length cols)%nat ->
+     Rabs (nth e eqs (fun _ _ => 0) (term (upd D spots x)) (nth j cols 0%Z)) < tol).
+Proof. intros. unfold stacked_residual. apply stacked_norm_iff_each. auto. Qed.
+
+(* ... and position e + neq*j of the stacked vector is equation e at column index j *)
+Theorem stacked_residual_nth : forall eqs term cols D spots x e j,
+  (e < length eqs)%nat -> (j < length cols)%nat ->
+  nth (e + length eqs * j) (stacked_residual eqs term cols D spots x) 0 =
+  nth e eqs (fun _ _ => 0) (term (upd D spots x)) (nth j cols 0%Z).
+Proof. intros. unfold stacked_residual. rewrite stack_nth by auto. reflexivity. Qed.
+
+(* ---------- terminal operators ---------- *)
+
+(* terminal="data": the cells beyond the last column are whatever the frame's data hold *)
+Definition term_data : darr -> darr := fun D => D.
+
+(* weighted sum of absolute cells *)
+Definition abs_comb (w : list (spot * R)) (A : darr) : R :=
+  fold_right (fun t acc => snd t * A (fst (fst t)) (snd (fst t)) + acc) 0 w.
+
+(* terminal="first_order": the cells (q, c), q a current-dated solution variable, c a terminal column, hold the
+   first-order continuation, an affine function (rows of [T;TT;...] and [K;TK+K;...]: C01) of the cells
+   Token(qid, last + shift) of the solution vector; every other cell is untouched *)
+Record affine_terminal := mkAffTerm {
+  at_cell : Z -> Z -> bool;
+  at_weights : Z -> Z -> list (spot * R);
+  at_const : Z -> Z -> R }.
+
+Definition term_affine (T : affine_terminal) : darr -> darr :=
+  fun A q c => if at_cell T q c then abs_comb (at_weights T q c) A + at_const T q c else A q c.
+Definition term_linear (T : affine_terminal) : darr -> darr :=
+  fun A q c => if at_cell T q c then abs_comb (at_weights T q c) A else A q c.
+
+Definition data_terminal : affine_terminal := mkAffTerm (fun _ _ => false) (fun _ _ => []) (fun _ _ => 0).
+
+Lemma term_affine_data : forall A q c, term_affine data_terminal A q c = term_data A q c.
+Proof. reflexivity. Qed.
+
+(* the model's first-order terminal cells: current-dated solution rows x terminal columns *)
+Definition fo_cells (qids : list Z) (last max_lead : Z) : Z -> Z -> bool :=
+  fun q c => zmem q qids && zmem c (terminal_columns last max_lead).
+
+Lemma fo_cells_beyond_last : forall qids last max_lead q c,
+  fo_cells qids last max_lead q c = true -> (last < c <= last + max_lead)%Z /\ In q qids.
+Proof.
+  intros. unfold fo_cells in H. apply andb_true_iff in H. destruct H as [Hq Hc].
+  apply zmem_In in Hq. apply zmem_In in Hc.
+  unfold terminal_columns, term_columns_range, term_first_terminal in Hc. simpl in Hc.
+  apply zrange_In in Hc. split; auto. lia.
+Qed.
+
+Definition dsub (A B : darr) : darr := fun q c => A q c - B q c.
+
+Lemma abs_comb_sub : forall w A B, abs_comb w A - abs_comb w B = abs_comb w (dsub A B).
+Proof. induction w; simpl; intros. lra. rewrite <- IHw. unfold dsub. lra. Qed.
+
+Lemma term_affine_sub : forall T A B q c,
+  term_affine T A q c - term_affine T B q c = term_linear T (dsub A B) q c.
+Proof.
+  intros. unfold term_affine, term_linear. destruct (at_cell T q c).
+  - rewrite <- abs_comb_sub. lra.
+  - reflexivity.
+Qed.
+
+(* ---------- affine equations ---------- *)
+
+(* sum of coef * A(q, t + shift) + constant; shocks, exogenous variables and parameters are rows of A as well *)
+Definition lin_comb (terms : list (spot * R)) (A : darr) (t : Z) : R :=
+  fold_right (fun tm acc => snd tm * A (fst (fst tm)) (t + snd (fst tm))%Z + acc) 0 terms.
+
+Definition affine_equation := (list (spot * R) * R)%type.
+Definition eval_affine (e : affine_equation) : equation := fun A t => lin_comb (fst e) A t + snd e.
+
+Lemma lin_comb_sub : forall terms A B t, lin_comb terms A t - lin_comb terms B t = lin_comb terms (dsub A B) t.
+Proof. induction terms; simpl; intros. lra. rewrite <- IHterms. unfold dsub. lra. Qed.
+
+Lemma lin_comb_ext : forall terms A B t, (forall q c, A q c = B q c) -> lin_comb terms A t = lin_comb terms B t.
+Proof. induction terms; simpl; intros; auto. rewrite H, (IHterms A B t H). reflexivity. Qed.
+
+Lemma abs_comb_ext : forall w A B, (forall q c, A q c = B q c) -> abs_comb w A = abs_comb w B.
+Proof. induction w; simpl; intros; auto. rewrite H, (IHw A B H). reflexivity. Qed.
+
+Section LinearAgrees.
+
+Variable aeqs : list affine_equation.
+Variable T : affine_terminal.
+Variable cols : list Z.
+Variable spots : list spot.
+Variable D : darr.                  (* the frame's data: initial conditions, shocks, exogenous, terminal data *)
+
+Let eqs : list equation := map eval_affine aeqs.
+Let neq := length aeqs.
+
+Definition zero_arr : darr := fun _ _ => 0.
+
+(* linear part of the stacked system (the stacked Jacobian as a linear map on the unknowns) *)
+Definition stacked_linear (dx : nat -> R) : nat -> nat -> R :=
+  fun e j => lin_comb (fst (nth e aeqs ([], 0))) (term_linear T (upd zero_arr spots dx)) (nth j cols 0%Z).
+
+Lemma nth_eqs : forall e A t, (e < neq)%nat ->
+  nth e eqs (fun _ _ => 0) A t = eval_affine (nth e aeqs ([], 0)) A t.
+Proof.
+  intros. unfold eqs.
+  rewrite (nth_indep _ (fun _ _ => 0) (eval_affine ([], 0))) by (rewrite map_length; exact H).
+  rewrite map_nth. reflexivity.
+Qed.
+
+Lemma upd_sub : forall x y q c,
+  dsub (upd D spots x) (upd D spots y) q c = upd zero_arr spots (fun k => x k - y k) q c.
+Proof. intros. unfold dsub, upd, zero_arr. destruct (index_of (q, c) spots); lra. Qed.
+
+(* the stacked system of affine equations with an affine terminal operator is affine in the unknowns *)
+Lemma residual_affine : forall x y e j, (e < neq)%nat ->
+  residual eqs (term_affine T) cols D spots x e j - residual eqs (term_affine T) cols D spots y e j
+  = stacked_linear (fun k => x k - y k) e j.
+Proof.
+  intros. unfold residual, stacked_linear. rewrite !nth_eqs by auto. unfold eval_affine.
+  match goal with |- ?a + ?c - (?b + ?c) = _ => replace (a + c - (b + c)) with (a - b) by lra end.
+  rewrite lin_comb_sub. apply lin_comb_ext. intros q c.
+  unfold dsub at 1. rewrite term_affine_sub.
+  unfold term_linear. destruct (at_cell T q c).
+  - apply abs_comb_ext. intros. apply upd_sub.
+  - apply upd_sub.
+Qed.
+
+(* the first-order path, as a data array on the frame's columns and beyond *)
+Variable P : darr.
+
+(* contract (C01): the first-order path satisfies every model equation in every simulated column, with the leads
+   beyond the last column read through the terminal operator (its own first-order continuation) *)
+Hypothesis P_solves : forall e j, (e < neq)%nat -> (j < length cols)%nat ->
+  eval_affine (nth e aeqs ([], 0)) (term_affine T P) (nth j cols 0%Z) = 0.
+
+(* same inputs: off the unknown cells the path carries the frame's data *)
+Hypothesis P_inputs : forall q c, ~ In (q, c) spots -> P q c = D q c.
+
+Definition x_first_order : nat -> R := fun k => P (fst (nth k spots (0%Z, 0%Z))) (snd (nth k spots (0%Z, 0%Z))).
+
+Lemma upd_first_order : forall q c, upd D spots x_first_order q c = P q c.
+Proof.
+  intros. unfold upd, x_first_order. destruct (index_of (q, c) spots) eqn:I.
+  - apply index_of_nth in I. destruct I as [_ E]. rewrite E. reflexivity.
+  - apply index_of_In in I. symmetry. apply P_inputs. auto.
+Qed.
+
+(* (a) the first-order path is a zero of the stacked system *)
+Theorem first_order_is_zero : forall e j, (e < neq)%nat -> (j < length cols)%nat ->
+  residual eqs (term_affine T) cols D spots x_first_order e j = 0.
+Proof.
+  intros. unfold residual. rewrite nth_eqs by auto.
+  etransitivity; [| exact (P_solves e j H H0)]. unfold eval_affine. f_equal.
+  apply lin_comb_ext. intros q c. unfold term_affine. destruct (at_cell T q c).
+  - f_equal. apply abs_comb_ext. apply upd_first_order.
+  - apply upd_first_order.
+Qed.
+
+Corollary first_order_passes_test : forall tol, 0 < tol ->
+  max_norm (stacked_residual eqs (term_affine T) cols D spots x_first_order) < tol.
+Proof.
+  intros. apply stacked_zero_iff_all_zero; auto. intros e j He Hj.
+  unfold eqs in He. rewrite map_length in He.
+  assert (H0 := first_order_is_zero e j He Hj). unfold residual in H0. rewrite H0, Rabs_R0. auto.
+Qed.
+
+(* (b) it is the only zero when the stacked Jacobian is non-singular, so the results coincide *)
+Hypothesis jacobian_nonsingular : forall dx : nat -> R,
+  (forall e j, (e < neq)%nat -> (j < length cols)%nat -> stacked_linear dx e j = 0) ->
+  forall k, (k < length spots)%nat -> dx k = 0.
+
+Theorem linear_agrees : forall x,
+  (forall e j, (e < neq)%nat -> (j < length cols)%nat ->
+     residual eqs (term_affine T) cols D spots x e j = 0) ->
+  (forall k, (k < length spots)%nat -> x k = x_first_order k)
+  /\ (forall q c, upd D spots x q c = P q c).
+Proof.
+  intros x Hx.
+  assert (K : forall k, (k < length spots)%nat -> x k = x_first_order k).
+  { intros k Hk.
+    assert (Z0 : x k - x_first_order k = 0).
+    { apply (jacobian_nonsingular (fun k => x k - x_first_order k)); auto.
+      intros e j He Hj. rewrite <- residual_affine by auto.
+      rewrite (Hx e j He Hj), (first_order_is_zero e j He Hj). lra. }
+    lra. }
+  split; auto.
+  intros q c. rewrite <- upd_first_order. unfold upd.
+  destruct (index_of (q, c) spots) eqn:I; auto.
+  apply index_of_nth in I. destruct I as [Hk _]. auto.
+Qed.
+
+End LinearAgrees.
